@@ -59,6 +59,7 @@ def trace(fn):
         return ('traced', fn(*a, **k))
     wrapper.kind_received = type(fn).__name__
     return wrapper
+GX = 'global-gx'
 class Desc:
     def __set_name__(self, owner, name): self.name = name
     def __get__(self, obj, tp=None): return 'desc:' + getattr(self, 'name', '?')
@@ -110,6 +111,10 @@ MEMBERS = {
     'classgetitem': ["def __class_getitem__(cls, key):", "    return ('implicit', cls.__name__, key)"],
     'classgetitem_decorated': ["@classmethod", "def __class_getitem__(cls, key):", "    return ('explicit', cls.__name__, key)"],
     'initsub_classmethod': ["@classmethod", "def __init_subclass__(cls, **kw):", "    super().__init_subclass__(**kw)", "    cls.sub_seen = 'explicit-classmethod:' + cls.__name__"],
+    # the body reads a name before (or without) binding it: global / builtin of that name, never KeyError
+    'read_before_bind': ["gx0 = 'pre:' + GX", "GX = 'member'", "gx1 = GX", "ln0 = len('abc')", "len = 'shadowed'", "ln1 = len",
+                         "for _i in range(2):", "    if _i:", "        late = 'bound-on-second-pass'", "    seen_late = late if _i else 'not-yet'",
+                         "def rb(self, a=GX, b=len):", "    return (a, b, GX)"],
     'classcell': ["def cc(self):", "    return __class__.__name__", "def cc_super(self):", "    return super().__class__.__name__, super().__init__ is not None"],
 }
 CALLS = ('m', 'm5', 's', 'c', 'p', 'im', 'lam', 'who', 'who2', 'getpv', 'dd', 'md', 'tag', 'hello', 'd1', 'd2')
@@ -143,7 +148,7 @@ def _obs(K):
                        ('who', lambda: o.who()), ('who2', lambda: o.who2()), ('getpv', lambda: o.getpv()), ('dd', lambda: o.dd), ('md', lambda: o.md()), ('tag', lambda: K.tag), ('hello', lambda: K.hello()),
                        ('d1', lambda: K.d1), ('d2', lambda: K.d2), ('hasdict', lambda: hasattr(o, '__dict__')), ('repr', lambda: repr(o) if 'K()' == repr(o) else 'default'),
                        ('cm2', lambda: o.cm2()), ('cc', lambda: o.cc()), ('cc_super', lambda: o.cc_super()), ('at_deco_time', lambda: K.at_deco_time), ('from_deco', lambda: K.from_deco), ('ps', lambda: (K.ps, K.pt, o.pm())), ('take', lambda: (o.take(), o.take(1, n=0), K.stake(), K.ctake(), K.take.__kwdefaults__)), ('kind_received', lambda: K.__dict__['__init_subclass__'].__func__.kind_received), ('hv', lambda: K.hv), ('mk', lambda: type(K.mk()).__name__), ('iv', lambda: o.iv), ('setp', lambda: (setattr(o, 'p', 3), o._pv)[1]),
-                       ('cgi', lambda: K[0]), ('who3', lambda: (o.who3(), o.who3(5, y=6))), ('seen_by_meta', lambda: K.seen_by_meta), ('attrs_at_subclass_time', lambda: K.attrs_at_subclass_time), ('sc', lambda: K().s(2)), ('cnt', lambda: (K.cnt, K.lst))]:
+                       ('cgi', lambda: K[0]), ('rb', lambda: o.rb()), ('who3', lambda: (o.who3(), o.who3(5, y=6))), ('seen_by_meta', lambda: K.seen_by_meta), ('attrs_at_subclass_time', lambda: K.attrs_at_subclass_time), ('sc', lambda: K().s(2)), ('cnt', lambda: (K.cnt, K.lst))]:
         try: out.append((name, repr(call())))
         except Exception as e: out.append((name, 'exc:' + type(e).__name__))
     try:
